@@ -17,6 +17,11 @@ static CUR: AtomicUsize = AtomicUsize::new(0);
 static PEAK: AtomicUsize = AtomicUsize::new(0);
 unsafe impl GlobalAlloc for Counting {
     unsafe fn alloc(&self, l: Layout) -> *mut u8 {
+        if l.size() > (1 << 30) {
+            // a single allocation of more than 1 GiB while decoding inputs of at most a few KiB
+            let _ = std::io::Write::write_all(&mut std::io::stderr(), b"ALLOC-CAP: single allocation above 1 GiB\n");
+            std::process::abort();
+        }
         let c = CUR.fetch_add(l.size(), SeqCst) + l.size();
         PEAK.fetch_max(c, SeqCst);
         System.alloc(l)
